@@ -73,3 +73,12 @@ From Ahb Require Import Gen.Gen_fcmsg Proofs.C08_gen.
 Theorem C04_hint_builder_is_the_regenerated_table : Forall hint_row_ok hint_rows /\ length hint_rows = 27.
 Proof. exact (conj hint_rows_ok hint_rows_complete). Qed.
 Print Assumptions C04_hint_builder_is_the_regenerated_table.
+
+(* ---- tie T for the transformer itself: the four callbacks of RequirementConstraintTransformer, executed by the translator on every pair of nodes of a
+   finite universe covering all their case distinctions (4 requirement-constraint states, hint, format constraint, compositions in 4 states x hint
+   text or none x no / single-key / compound collected expression: 30 x 30 x 4 rows, Gen/Gen_rccb.v), return what `compose` -- the function eval_rc
+   folds over the tree -- returns: kind, state, hint text, collected expression as written by the builder, or the exception. *)
+From Ahb Require Import Corr.Eval Gen.Gen_rccb Proofs.C04_gen.
+Theorem C04_transformer_callbacks_are_the_regenerated_table : forallb cb_row_ok cb_rows = true /\ length cb_rows = 3600.
+Proof. exact (conj cb_rows_ok cb_rows_complete). Qed.
+Print Assumptions C04_transformer_callbacks_are_the_regenerated_table.
